@@ -117,6 +117,10 @@ func (g *c19Gen) pattern(v *c19Val, hit bool, depth int, names *[]string) *ast.N
 			for i, it := range v.items {
 				if i == bad && it.kind != "arr" && it.kind != "obj" {
 					subs = append(subs, ast.Num("77"))
+				} else if i == bad && g.n(0, 2, "litvscontainerelem") == 0 {
+					// a literal against a container element: the comparison is a runtime error
+					subs = append(subs, ast.Num("1"))
+					g.labels["literal-vs-container-element"] = true
 				} else if i == bad {
 					subs = append(subs, ast.Arr(ast.Id(g.fresh()), ast.Id(g.fresh()), ast.Id(g.fresh()), ast.Id(g.fresh()), ast.Id(g.fresh())))
 				} else {
